@@ -1,0 +1,87 @@
+//go:build verif
+
+package vgirpc
+
+import (
+	"errors"
+	"strings"
+
+	"github.com/apache/arrow-go/v18/arrow"
+)
+
+// Verification hooks for property C19 (response size caps).
+// Add-only; compiled in only with -tags verif.
+
+// VerifC19Enforce runs enforceResponseBudgets and names the cap that fired:
+// "" (within budget), "wire" (max_response_bytes), "ext"
+// (max_externalized_response_bytes, the distinct externalCapError type).
+func VerifC19Enforce(wireBytes, externalBytes, wireCap, externalCap int64) string {
+	err := enforceResponseBudgets("m", wireBytes, externalBytes, wireCap, externalCap)
+	if err == nil {
+		return ""
+	}
+	var capErr *externalCapError
+	if errors.As(err, &capErr) {
+		return "ext"
+	}
+	if strings.Contains(err.Error(), "max_response_bytes") {
+		return "wire"
+	}
+	return "other"
+}
+
+// VerifC19BatchBufferSize exposes batchBufferSize (the "Arrow size" that the
+// externalisation threshold and the external-cap pre-flight run on).
+func VerifC19BatchBufferSize(b arrow.RecordBatch) int64 { return batchBufferSize(b) }
+
+// VerifC19Predict exposes predictExternalizeBytes.
+func VerifC19Predict(b arrow.RecordBatch, cfg *ExternalLocationConfig) int64 {
+	return predictExternalizeBytes(b, cfg)
+}
+
+// VerifC19ResultBufferSize is the Arrow buffer size of the result batch the
+// unary path builds for value on the named method (serializeResult over the
+// registered result schema), or -1 when it cannot be built.
+func VerifC19ResultBufferSize(s *Server, method string, value any) int64 {
+	info, ok := s.methods[method]
+	if !ok || info.ResultSchema == nil {
+		return -1
+	}
+	b, err := serializeResult(info.ResultSchema, value)
+	if err != nil {
+		return -1
+	}
+	defer b.Release()
+	return batchBufferSize(b)
+}
+
+// VerifC19Threshold exposes (*ExternalLocationConfig).threshold.
+func VerifC19Threshold(cfg *ExternalLocationConfig) int64 { return cfg.threshold() }
+
+func init() {
+	verifConstProviders = append(verifConstProviders, func() []VerifConst {
+		// Decision table of the compiled enforceResponseBudgets on boundary
+		// probes (cap 100): 0 = within budget, 1 = wire cap, 2 = external cap.
+		code := func(w, e, wc, ec int64) int64 {
+			switch VerifC19Enforce(w, e, wc, ec) {
+			case "":
+				return 0
+			case "wire":
+				return 1
+			case "ext":
+				return 2
+			}
+			return 9
+		}
+		return []VerifConst{
+			verifNum("c19_default_threshold", (&ExternalLocationConfig{}).threshold()),
+			verifNum("c19_enf_wire_at_cap", code(100, 0, 100, 0)),
+			verifNum("c19_enf_wire_over_cap", code(101, 0, 100, 0)),
+			verifNum("c19_enf_ext_at_cap", code(0, 100, 0, 100)),
+			verifNum("c19_enf_ext_over_cap", code(0, 101, 0, 100)),
+			verifNum("c19_enf_both_over", code(101, 101, 100, 100)),
+			verifNum("c19_enf_unset", code(1<<40, 1<<40, 0, 0)),
+			verifNum("c19_enf_negative_cap", code(5, 5, -1, -1)),
+		}
+	})
+}
